@@ -1538,6 +1538,19 @@ func runC03() {
 			}
 		}
 	}
+	// literal arithmetic in ARGUMENT position under EVERY arithmetic operator (+ - * / % ** and the unary signs, nested), for
+	// parameters of narrow / wide / unsigned / float / string kinds: the pinned checker retypes + - * / and the signs to the parameter
+	// (recorded finding C03-literal-retype) and rejects the others; whatever is accepted must run without a type failure,
+	// optimizer on and off
+	{
+		ke := c03KindEnv()
+		wK := &c03World{name: "C03K", sample: ke, envT: reflect.TypeOf(ke), envs: []interface{}{ke}, twins: []interface{}{ke}}
+		for _, fn := range []string{"GI8", "GU16", "GI64", "GF32", "GS", "GM"} {
+			for _, a := range []string{"5 % 3", "17 % 5", "2 ** 2", "-(7 % 4)", "1 + 5 % 3", "+(2 ** 2)", "(1 + 2) * 3", "7 / 2", "1 - 2", "5 % 3 * 2", "-3", "4"} {
+				push(item{src: fn + "(" + a + ")", w: wK, fam: "literal arithmetic as argument"})
+			}
+		}
+	}
 	// arithmetic with the neutral literal: the result has the PROMOTED kind (uint8 * 1 is an int) - also after the optimizer
 	for _, k := range []string{"U8", "U16", "U32", "U", "U64", "I8", "I16", "I32", "I64", "I", "F32", "F64"} {
 		for _, s := range []string{k + " * 1", "1 * " + k, k + " / 1", k + " + 0", "0 + " + k, k + " - 0", "-(" + k + " * 1)", "(" + k + " * 1) == I", k + " * 1 * 1"} {
@@ -1811,6 +1824,8 @@ func runC03() {
 		}
 	}
 
+	c03Round7(rep)
+
 	// ---- correspondence over the other configurations
 	extra := []string{"a", "a + 1", "b + a", "zz", "zz + 1", "zz?.x", "f(1)", "f(s)", "g(1)", "in.X", "in.Zz", "s + a", "a.b", "len(s)", "I + 1", "I + S", "S + S2", "Zz", "Zz(1)", "Zz.a", "St.Zz",
 		"Add(1, 2)", "I + I", "S + S", "I + F64", "I < 2", "St < 2", "1 + 2 + 3", "nil", "[1, 2]", "{a: 1}", "#", "all(AI, {# > 0})", "map(AI, {nil})", "map(AI, {#})", "filter(AA, {true})", "filter(Any, {true})",
@@ -1852,6 +1867,22 @@ func runC03() {
 }
 
 // two environment types with a nested struct type of the SAME printed name and different member types
+type C03KInt int32
+
+type C03K struct {
+	GI8  func(int8) int8
+	GU16 func(uint16) uint16
+	GI64 func(int64) int64
+	GF32 func(float32) float32
+	GS   func(string) string
+	GM   func(C03KInt) C03KInt
+}
+
+func c03KindEnv() *C03K {
+	return &C03K{GI8: func(x int8) int8 { return x }, GU16: func(x uint16) uint16 { return x }, GI64: func(x int64) int64 { return x },
+		GF32: func(x float32) float32 { return x }, GS: func(x string) string { return x }, GM: func(x C03KInt) C03KInt { return x }}
+}
+
 func c03LocalA() interface{} {
 	type Reading struct {
 		Value int
